@@ -8,7 +8,7 @@ from props.c12 import xxh32
 SLICE = "KafkaClient request builders (fetch / offsets / produce / commit / group-offset fetch) over ClientState membership; Producer::send_all; consumer Builder::create"
 RULE = ("static clusters (1-3 brokers, 2-4 topics x 1-5 partitions, ~15% leaderless); metadata histories: load all | load a subset (incl. names that do not "
         "exist) | load all + reset | load all + reset + load subset | two subset loads | load all then a reload of one topic answered with FEWER partitions | "
-        "no load at all, optionally followed by a second phase (reset / subset reload) after the first probes; then 5-9 calls drawn from every public operation "
+        "no load at all | Producer / Consumer built from a host list (own client), optionally followed by a second phase (reset / subset reload) after the first probes; then 5-9 calls drawn from every public operation "
         "(fetch_messages, fetch_offsets, list_offsets, fetch_topic_offsets, produce_messages, commit_offsets, fetch_group_offsets, fetch_group_topic_offset "
         "with Kafka or Zookeeper offset storage, Producer send_all, Consumer creation + poll) whose arguments mix known topics with unknown ones (fresh names, "
         "prefixes / extensions / case variants of known names) and partition ids in range, == count, count+1, 99, 2^31-1, -1, -2, -2^31, with and without leader; "
@@ -245,6 +245,24 @@ def consumer_section(rng, view, routes):
     return ops, not final
 
 
+def from_hosts_case(rng):
+    """Producer / Consumer that create their own client: the only metadata request they may send names no topic"""
+    spec = cluster_spec(rng)
+    m = replay_merge({"cluster": spec, "ops": [T("client_new", [[]]), T("load_metadata_all")]}, 1)
+    view, routes = m.view, m.routes()
+    if rng.random() < 0.5:
+        ops = producer_section(rng, view, routes)
+        ops[0] = T("producer_build", [T("from_hosts", [hosts_of(spec)]), ops[0].args[1]])
+        ops.append(T("set_group_offset_storage", [1]))
+        ops += probe_ops(rng, view, routes, rng.randint(2, 4), True)
+        kind = "producer_from_hosts"
+    else:
+        ops, _ = consumer_section(rng, view, routes)
+        ops[0] = T("consumer_build", [T("from_hosts", [hosts_of(spec)]), ops[0].args[1]])
+        kind = "consumer_from_hosts"
+    return {"cluster": spec, "ops": ops, "meta": {"kind": kind, "phases": 1}}
+
+
 def make_case(rng, kind=None, two_phase=None):
     spec = cluster_spec(rng)
     kind = kind or rng.choice(HISTORIES)
@@ -287,6 +305,8 @@ def gen(rng, tier):
     n = 900 if tier == "quick" else 12000
     for i in range(n):
         cases.append(make_case(rng, kind=HISTORIES[i % len(HISTORIES)]))
+    for i in range(n // 10):
+        cases.append(from_hosts_case(rng))
     return cases
 
 
@@ -355,16 +375,18 @@ def oracle(case, recs, cl):
                 continue
             for t, p in ms:
                 if api == "metadata":
-                    bad("implicit metadata request names topic %r" % t)
+                    bad("metadata request names topic %r although no load of named topics was asked for" % t)
                 elif t not in view:
                     bad("%s request to %s names topic %r which is not in the loaded metadata" % (api, h.decode(), t))
                 elif p is not None and not (0 <= p < len(view[t])):
                     bad("%s request to %s names %s:%d but the loaded metadata has %d partitions" % (api, h.decode(), t.decode(), p, len(view[t])))
 
+        own_client = op.name in ("consumer_build", "producer_build") and op.args[0].name == "from_hosts"
+
         def must_reject(reason):
             if res != UNKNOWN:
                 bad("%s: expected UnknownTopicOrPartition" % reason)
-            if wrote(rec):
+            if wrote(rec) and not own_client:
                 bad("%s: the call must fail before anything is sent, but bytes were written" % reason)
 
         # (2) per operation: what happens to entries outside the loaded metadata
